@@ -167,8 +167,13 @@ def affine_ops(ctx):
             M.replace = saved
         ft, fs, fm = ctx.function(M.Mesh.translated), ctx.function(M.Mesh.scaled), ctx.function(M.Mesh.mirrored)
         for r, f_, nm in ((rt, ft, "translated"), (rs, fs, "scaled"), (rm, fm, "mirrored")):
+            if not hasattr(r, "kw"):
+                ctx.unsupported("affine/%s/d%d" % (nm, d), f_, "the operation does not build its result with dataclasses.replace(self, doflocs=...): outside the modelled form")
+                continue
             ctx.fact("affine/%s/d%d/only-coordinates-replaced" % (nm, d), f_, set(r.kw) == {"doflocs"}, "replace(...) must change doflocs only (connectivity and tags untouched)",
                      backend="symbolic-execution")
+        if not all(hasattr(r, "kw") and "doflocs" in r.kw for r in (rt, rs, rm)):
+            continue
         T_, S_, Mi = (np.asarray(r.kw["doflocs"], dtype=object) for r in (rt, rs, rm))
         for v in range(2):
             for i in range(d):
